@@ -1413,7 +1413,7 @@ func (x *explorer) doCall(st *state, fr *frame, c *ssa.CallCommon, bind *ssa.Cal
 	if isBound {
 		pureStatic = false
 	}
-	if !pureStatic && len(static.Blocks) > 0 && (isBound || (isSubjectPkg(fnPkgPath(static)) && (x.cfg.Inline(static) || x.argDriven(static, cargs)))) && fr.depth < x.cfg.MaxDepth+2 && (isBound || fr.depth < x.cfg.MaxDepth) && !x.onStack(st, static) {
+	if !pureStatic && len(static.Blocks) > 0 && (isBound || (isSubjectPkg(fnPkgPath(static)) && (x.cfg.Inline(static) || x.cfg.ForceInline != nil && x.cfg.ForceInline(static) || x.argDriven(static, cargs)))) && fr.depth < x.cfg.MaxDepth+2 && (isBound || fr.depth < x.cfg.MaxDepth) && !x.onStack(st, static) {
 		nf := x.newFrame(st, static, args, free, fr.depth+1)
 		nf.inDefer = fr.inDefer || d != nil
 		if bind != nil {
